@@ -109,8 +109,14 @@ func (api *API) mapDecodeBasedOnType(ctx context.Context, mapVal any, value refl
 					fieldKey = *innerTS.fieldKey
 				}
 
-				//nolint:forcetypeassert
-				fieldValStr := mapVal.(map[string]any)[fieldKey].(string)
+				fieldValMap, ok := mapVal.(map[string]any)
+				if !ok {
+					return ierrors.Errorf("non map[string]any value for byte array field, got %T instead", mapVal)
+				}
+				fieldValStr, err := mapValAsString(fieldValMap[fieldKey])
+				if err != nil {
+					return ierrors.Wrap(err, "failed to read byte slice from map")
+				}
 				byteSlice, err := DecodeHex(fieldValStr)
 				if err != nil {
 					return ierrors.Wrap(err, "failed to read byte slice from map")
@@ -147,7 +153,11 @@ func (api *API) mapDecodeBasedOnType(ctx context.Context, mapVal any, value refl
 		sliceValue := sliceFromArray(value)
 		sliceValueType := sliceValue.Type()
 		if sliceValueType.AssignableTo(bytesType) {
-			byteSlice, err := DecodeHex(mapVal.(string))
+			fieldValStr, err := mapValAsString(mapVal)
+			if err != nil {
+				return ierrors.Wrap(err, "failed to read byte slice from map")
+			}
+			byteSlice, err := DecodeHex(fieldValStr)
 			if err != nil {
 				return ierrors.Wrap(err, "failed to read byte slice from map")
 			}
@@ -183,22 +193,42 @@ func (api *API) mapDecodeBasedOnType(ctx context.Context, mapVal any, value refl
 
 		return nil
 	case reflect.Bool:
+		if _, ok := mapVal.(bool); !ok {
+			return ierrors.Errorf("non bool value for bool field, got %T instead", mapVal)
+		}
+
 		addrValue := value.Addr().Convert(reflect.TypeOf((*bool)(nil)))
 		addrValue.Elem().Set(reflect.ValueOf(mapVal))
 
 		return nil
 	case reflect.Int8, reflect.Int16, reflect.Int32:
-		//nolint:forcetypeassert // false positive, we already checked the type via reflect
-		return api.mapDecodeNum(value, valueType, float64NumParser(mapVal.(float64), value.Kind(), true))
+		floatVal, err := mapValAsFloat64(mapVal)
+		if err != nil {
+			return err
+		}
+
+		return api.mapDecodeNum(value, valueType, float64NumParser(floatVal, value.Kind(), true))
 	case reflect.Int64:
-		//nolint:forcetypeassert // false positive, we already checked the type via reflect
-		return api.mapDecodeNum(value, valueType, strNumParser(mapVal.(string), 64, true))
+		strVal, err := mapValAsString(mapVal)
+		if err != nil {
+			return err
+		}
+
+		return api.mapDecodeNum(value, valueType, strNumParser(strVal, 64, true))
 	case reflect.Uint8, reflect.Uint16, reflect.Uint32:
-		//nolint:forcetypeassert // false positive, we already checked the type via reflect
-		return api.mapDecodeNum(value, valueType, float64NumParser(mapVal.(float64), value.Kind(), false))
+		floatVal, err := mapValAsFloat64(mapVal)
+		if err != nil {
+			return err
+		}
+
+		return api.mapDecodeNum(value, valueType, float64NumParser(floatVal, value.Kind(), false))
 	case reflect.Uint64:
-		//nolint:forcetypeassert // false positive, we already checked the type via reflect
-		return api.mapDecodeNum(value, valueType, strNumParser(mapVal.(string), 64, false))
+		strVal, err := mapValAsString(mapVal)
+		if err != nil {
+			return err
+		}
+
+		return api.mapDecodeNum(value, valueType, strNumParser(strVal, 64, false))
 	case reflect.Float32, reflect.Float64:
 		return api.mapDecodeFloat(value, valueType, mapVal)
 	default:
@@ -267,7 +297,12 @@ func (api *API) mapDecodeFloat(value reflect.Value, valueType reflect.Type, mapV
 	bitSize, _, addrTypeToConvert := getNumberTypeToConvert(valueType.Kind())
 	addrValue = addrValue.Convert(addrTypeToConvert)
 
-	f, err := strconv.ParseFloat(mapVal.(string), bitSize)
+	strVal, err := mapValAsString(mapVal)
+	if err != nil {
+		return err
+	}
+
+	f, err := strconv.ParseFloat(strVal, bitSize)
 	if err != nil {
 		return err
 	}
@@ -293,8 +328,11 @@ func (api *API) mapDecodeInterface(
 	if !has {
 		return ierrors.Errorf("no object type defined in map for interface %s", valueType)
 	}
-	//nolint:forcetypeassert // false positive
-	objectCode := uint32(objectCodeAny.(float64))
+	objectCodeFloat, err := mapValAsFloat64(objectCodeAny)
+	if err != nil {
+		return ierrors.Wrapf(err, "invalid object type in map for interface %s", valueType)
+	}
+	objectCode := uint32(objectCodeFloat)
 
 	objectType, exists := iObjects.GetObjectTypeByCode(objectCode)
 	if !exists || objectType == nil {
@@ -313,8 +351,10 @@ func (api *API) mapDecodeInterface(
 func (api *API) mapDecodeStruct(ctx context.Context, mapVal any, value reflect.Value,
 	valueType reflect.Type, ts TypeSettings, opts *options) error {
 	if valueType == timeType {
-		//nolint:forcetypeassert // false positive, we already checked the type via reflect
-		strVal := mapVal.(string)
+		strVal, err := mapValAsString(mapVal)
+		if err != nil {
+			return ierrors.Wrap(err, "unable to parse time map value")
+		}
 		nanoTime, err := strconv.ParseUint(strVal, 10, 64)
 		if err != nil {
 			return ierrors.Wrapf(err, "unable to parse time %s map value", strVal)
@@ -424,8 +464,10 @@ func (api *API) mapDecodeStructFields(
 func (api *API) mapDecodeSlice(ctx context.Context, mapVal any, value reflect.Value,
 	valueType reflect.Type, ts TypeSettings, opts *options) error {
 	if valueType.AssignableTo(bytesType) {
-		//nolint:forcetypeassert // false positive, we already checked the type via reflect
-		fieldValStr := mapVal.(string)
+		fieldValStr, err := mapValAsString(mapVal)
+		if err != nil {
+			return ierrors.Wrap(err, "failed to read byte slice from map")
+		}
 		byteSlice, err := DecodeHex(fieldValStr)
 		if err != nil {
 			return ierrors.Wrap(err, "failed to read byte slice from map")
@@ -444,6 +486,9 @@ func (api *API) mapDecodeSlice(ctx context.Context, mapVal any, value reflect.Va
 	}
 
 	refVal := reflect.ValueOf(mapVal)
+	if refVal.Kind() != reflect.Slice {
+		return ierrors.Errorf("non slice value for slice field, got %T instead", mapVal)
+	}
 	for i := range refVal.Len() {
 		elemValue := reflect.New(valueType.Elem()).Elem()
 		if err := api.mapDecode(ctx, refVal.Index(i).Interface(), elemValue, TypeSettings{}, opts); err != nil {
@@ -519,4 +564,24 @@ func (api *API) mapDecodeMap(ctx context.Context, mapVal any, value reflect.Valu
 	}
 
 	return nil
+}
+
+// mapValAsString returns the given map value as a string or an error if it has a different type.
+func mapValAsString(mapVal any) (string, error) {
+	strVal, ok := mapVal.(string)
+	if !ok {
+		return "", ierrors.Errorf("non string value in map, got %T instead", mapVal)
+	}
+
+	return strVal, nil
+}
+
+// mapValAsFloat64 returns the given map value as a float64 (JSON number) or an error if it has a different type.
+func mapValAsFloat64(mapVal any) (float64, error) {
+	floatVal, ok := mapVal.(float64)
+	if !ok {
+		return 0, ierrors.Errorf("non number value in map, got %T instead", mapVal)
+	}
+
+	return floatVal, nil
 }
